@@ -1,6 +1,9 @@
 from props import *  # noqa: F401,F403
 
 rc_bin("c13_rc", ["harness/c13_log_content.cc"], lib=True)
+# the same harness built with g++ (the compiler the repository itself is built with): behaviour that depends on
+# unspecified evaluation order (variadic EmitLogRecord argument application) differs between the two compilers
+rc_bin("c13_gxx", ["harness/c13_log_content.cc"], lib=True, cxx="g++")
 rc_bin("c13_tsan", ["harness/c13_log_content.cc"], lib=True, san="tsan")
 PROPS["C13"] = dict(
     level_text="Model-based property tests: generated emit programs (17 precompiled argument orders of the variadic EmitLogRecord "
@@ -22,6 +25,7 @@ PROPS["C13"] = dict(
         run("f5-witness", "c13_rc", "f5_witness", "rc", None, None),
         run("threads", "c13_rc", "log_threads", "rc", dict(procs=3, cases=600), dict(procs=6, cases=6000), deterministic=False),
         # the same sequential programs under the TSan build: no quarantine, so freed spans/records are reused at once
+        run("program-g++", "c13_gxx", "log_program", "rc", dict(procs=2, cases=2500), dict(procs=4, cases=30000), replay_bin="c13_gxx"),
         run("program-tsan", "c13_tsan", "log_program", "rc", dict(procs=2, cases=500), dict(procs=4, cases=8000), replay_bin="c13_tsan"),
         run("threads-tsan", "c13_tsan", "log_threads", "rc", dict(procs=2, cases=250), dict(procs=4, cases=4000), deterministic=False, replay_bin="c13_tsan"),
     ],
